@@ -3,7 +3,7 @@
 use std::collections::BTreeMap;
 
 use crate::engine::*;
-use crate::gen_alloc::{plan, program, AllocPlan};
+use crate::gen_alloc::{loop_modules, plan_n, program, AllocPlan, KINDS_WITH_IMPORTS};
 use crate::pretty::render;
 use crate::rd::fnv64;
 
@@ -16,7 +16,7 @@ const GROWTH: usize = 2;
 fn census_filtered() -> BTreeMap<String, usize> {
     let (map, _) = yarel::memory::verif::census();
     map.into_iter()
-        .filter(|(k, _)| !(k.contains("ObjString") && !k.contains("ObjStringIter")) && !k.contains("Chunk") && !k.contains("ObjFunction") && !(k.contains("ObjRange") && !k.contains("ObjRangeIter")))
+        .filter(|(k, _)| !(k.contains("ObjString") && !k.contains("ObjStringIter")) && !k.contains("Chunk") && !k.contains("ObjFunction"))
         .map(|(k, v)| (k.to_string(), v))
         .collect()
 }
@@ -40,7 +40,7 @@ fn run_once(src: &str, check_bound: bool) -> RunInfo {
     mv::purge();
     mv::force_collect();
     mv::set_trace(true);
-    let mut s = Session::new(RunCfg { fuel: Some(200_000_000), ..RunCfg::default() });
+    let mut s = Session::new(RunCfg { fuel: Some(200_000_000), modules: loop_modules(), ..RunCfg::default() });
     let (out, end) = s.feed(src);
     let trace = mv::take_trace();
     mv::set_trace(false);
@@ -91,7 +91,7 @@ fn run_once(src: &str, check_bound: bool) -> RunInfo {
 impl C16 {
     fn plan_of(&self, bytes: &[u8], tier: Tier) -> AllocPlan {
         let (mi, mk) = if tier == Tier::Quick { (2500, 3000) } else { (6000, 6000) };
-        let mut p = plan(bytes, mi, mk);
+        let mut p = plan_n(bytes, mi, mk, KINDS_WITH_IMPORTS);
         // every retained slot must be written in the shorter run too
         if p.iterations < p.keep {
             p.iterations = p.keep + 10;
@@ -113,7 +113,7 @@ impl Property for C16 {
     }
 
     fn rule(&self) -> String {
-        "cases: loop programs with a bounded live set: n iterations (50..2500 quick, ..6000 thorough), each allocating 1-4 pieces of garbage of 12 kinds (vec, tuple, map, instance, closure, bound method, iterator, fiber run to completion, fiber abandoned while suspended, caught error object, map/collect chain, pooled strings) and overwriting one of K retained slots (K = 0, small, or up to 3000/6000, so survivors range from far below to far above the 64 KiB initial budget); a third of the programs first build and drop a structure of 500-6500 vectors, so that the live set shrinks sharply before the loop. Run in the optimised build with the threshold-paced collector. Oracle: (1) from the hook's allocation trace, with heap bytes recomputed from the object list at every collection (not from the collector's counter): before every allocation heap <= max(64 KiB, 2 x heap after the previous collection) + one allocation; (2) the same program with n and 2n iterations leaves the same census by type (strings, chunks, functions and the interpreter's 8-entry range cache excluded) after a forced collection; (3) after dropping the interpreter and collecting, the census equals the one taken before it was created. Non-trivial: >=3 collections with at least two different survivor sizes; distinct by program text.".into()
+        "cases: loop programs with a bounded live set: n iterations (50..2500 quick, ..6000 thorough), each allocating 1-4 pieces of garbage of 15 kinds (vec, tuple, map, instance, closure, bound method, iterator, fiber run to completion, fiber abandoned while suspended, caught error object, map/collect chain, pooled strings, a loop over a range with new bounds in every iteration, slices and range values with changing bounds, a caught import of a module that does not compile next to an import that succeeds) and overwriting one of K retained slots (K = 0, small, or up to 3000/6000, so survivors range from far below to far above the 64 KiB initial budget); a third of the programs first build and drop a structure of 500-6500 vectors, so that the live set shrinks sharply before the loop. Run in the optimised build with the threshold-paced collector. Oracle: (1) from the hook's allocation trace, with heap bytes recomputed from the object list at every collection (not from the collector's counter): before every allocation heap <= max(64 KiB, 2 x heap after the previous collection) + one allocation; (2) the same program with n and 2n iterations leaves the same census by type (strings, chunks and functions excluded; range objects may differ by the few the interpreter's range cache holds, not by a number that grows with n) after a forced collection; (3) after dropping the interpreter and collecting, the census equals the one taken before it was created. Non-trivial: >=3 collections with at least two different survivor sizes; distinct by program text.".into()
     }
 
     fn assumptions(&self) -> Vec<String> {
@@ -181,6 +181,31 @@ impl Property for C16 {
                 detail: format!("the 2n loop program did not finish normally: {}", r2.end),
             };
         }
+        // range objects: the interpreter keeps a small cache of recently built ranges (8 entries), and
+        // which ranges sit in it at the end may differ between the two runs; a number of leftover
+        // ranges that grows with the iteration count is a leak like any other
+        const RANGE_SLACK: usize = 32;
+        let is_range = |k: &str| k.contains("ObjRange") && !k.contains("ObjRangeIter");
+        let ranges = |c: &BTreeMap<String, usize>| c.iter().filter(|(k, _)| is_range(k)).map(|(_, v)| *v).sum::<usize>();
+        let (rg1, rg2) = (ranges(&r1.census), ranges(&r2.census));
+        if rg2 > rg1 + RANGE_SLACK {
+            return Verdict::Fail {
+                sig: "leftover-grows-with-iterations".into(),
+                detail: format!(
+                    "running the loop {} and {} times leaves {} and {} range objects behind (the interpreter's range cache holds 8)\nplan {:?}\n{}",
+                    p.iterations,
+                    p.iterations * 2,
+                    rg1,
+                    rg2,
+                    p,
+                    src1
+                ),
+            };
+        }
+        let mut r1 = r1;
+        let mut r2 = r2;
+        r1.census.retain(|k, _| !is_range(k));
+        r2.census.retain(|k, _| !is_range(k));
         if r1.census != r2.census {
             let diff: Vec<String> = r2
                 .census
